@@ -13,13 +13,30 @@ PROVED, for every edge list and every enumeration `vs`:
  * `clique_all_directed`: hence (without `-u`) its models, read as vertex sets, are exactly
    the cliques — including the empty set and singletons.
 
-FULL STATEMENTS (not proved): the `-u` case of the complement (one orientation kept, either
-direction connects) and `clique_max` (the quantified "no larger clique" part; needs the
-fresh-prefix hypothesis).  Both are decided on every generated graph by the correspondence
-run: semantic equality of the real output with the model's formula and model-set equality
-with brute-force (maximum) cliques, for all four flag combinations.
+ * `complement_undirected_sound` / `complement_undirected_complete`: with `-u` every listed pair
+   is a pair of distinct vertices with no edge in either direction, and every such pair is
+   listed in one orientation (the `edges_complement.contains((v2, v1))` test only suppresses the
+   mirror image);
+ * `clique_all_undirected`: hence with `-u --all` the models are exactly the cliques of the
+   graph in which an edge given in either direction connects its endpoints;
+ * `clique_max` (the FULL STATEMENT without `--all`, both `-u` and not): the models are exactly
+   the cliques S such that no clique T has more vertices — under the hypotheses that the copy
+   variables are pairwise distinct and none of them is a vertex variable, which is what the
+   fresh prefix of the `fix:` commit establishes (before it, the graph {a, v_a} violated it);
+ * `clique_solved`: the evaluator terminates on the emitted formula and the diagram it returns
+   is true exactly on the maximum cliques (composition with C01).
+
+"A vertex whose variable the formula does not mention is unconstrained" is visible in the
+statements: they constrain σ only at `vid v` for `v ∈ vs`.
+
+Not proved: that the bytes the binary writes parse to `Clique.formula` for the hash set's
+iteration order (decided per generated graph by the correspondence run — semantic equality
+of the real output with the model's formula, and model-set equality with brute-force
+(maximum) cliques, for all four flag combinations).
 -/
 import Rsbdd.Proofs.GenSem
+import Rsbdd.Proofs.SemSubst
+import Rsbdd.Proofs.GenGood
 import Rsbdd.Model.Gen.Clique
 
 namespace Rsbdd.C16
@@ -137,5 +154,411 @@ theorem clique_all_directed (edges : List (Nat × Nat)) (vs : List Nat) (vid cid
 example : complement [(0, 1)] [0, 1] false = [(1, 0)] := by decide
 example : complement [(0, 1)] [0, 1] true = [] := by decide
 example : complement [(0, 1)] [0, 1, 2] true = [(0, 2), (1, 2)] := by decide
+
+
+/-! ### the complement under `-u` -/
+
+/-- not adjacent in the undirected reading: distinct and no edge in either direction -/
+def NonAdj (edges : List (Nat × Nat)) (a b : Nat) : Prop := a ≠ b ∧ (a, b) ∉ edges ∧ (b, a) ∉ edges
+
+theorem innerStep_mono (edges : List (Nat × Nat)) (u : Bool) (v1 v2 : Nat) (acc : List (Nat × Nat)) (p : Nat × Nat)
+    (h : p ∈ acc) : p ∈ innerStep edges u v1 acc v2 := by
+  unfold innerStep
+  split
+  · split
+    · split <;> simp [h]
+    · split <;> simp [h]
+  · exact h
+
+theorem inner_mono (edges : List (Nat × Nat)) (u : Bool) (v1 : Nat) (vs : List Nat) :
+    ∀ (acc : List (Nat × Nat)) (p : Nat × Nat), p ∈ acc → p ∈ vs.foldl (innerStep edges u v1) acc := by
+  induction vs with
+  | nil => intro acc p h; exact h
+  | cons v vs ih => intro acc p h; exact ih _ p (innerStep_mono edges u v1 v acc p h)
+
+theorem outer_mono (edges : List (Nat × Nat)) (u : Bool) (vs : List Nat) (us : List Nat) :
+    ∀ (acc : List (Nat × Nat)) (p : Nat × Nat), p ∈ acc →
+      p ∈ us.foldl (fun acc v1 => vs.foldl (innerStep edges u v1) acc) acc := by
+  induction us with
+  | nil => intro acc p h; exact h
+  | cons v us ih => intro acc p h; exact ih _ p (inner_mono edges u v vs acc p h)
+
+/-- one step under `-u`: a non-adjacent pair ends up in the list in one orientation -/
+theorem innerStep_undirected_complete (edges : List (Nat × Nat)) (v1 v2 : Nat) (acc : List (Nat × Nat))
+    (h : NonAdj edges v1 v2) :
+    (v1, v2) ∈ innerStep edges true v1 acc v2 ∨ (v2, v1) ∈ innerStep edges true v1 acc v2 := by
+  obtain ⟨hne, h1, h2⟩ := h
+  have e1 : edges.contains (v1, v2) = false := by simpa using h1
+  have e2 : edges.contains (v2, v1) = false := by simpa using h2
+  unfold innerStep
+  simp only [hne, ne_eq, not_false_eq_true, if_true, e1, e2, Bool.false_or]
+  by_cases hc : (v2, v1) ∈ acc
+  · simp [hc]
+  · simp [hc]
+
+/-- one step under `-u`: whatever is added is a non-adjacent pair `(v1, v2)` -/
+theorem innerStep_undirected_sound (edges : List (Nat × Nat)) (v1 v2 : Nat) (acc : List (Nat × Nat)) (p : Nat × Nat)
+    (h : p ∈ innerStep edges true v1 acc v2) : p ∈ acc ∨ (p = (v1, v2) ∧ NonAdj edges v1 v2) := by
+  unfold innerStep at h
+  by_cases hne : v1 = v2
+  · simp [hne] at h; exact Or.inl h
+  · simp only [ne_eq, hne, not_false_eq_true, if_true] at h
+    split at h
+    · rename_i hc
+      simp only [Bool.not_eq_true', Bool.or_eq_false_iff, List.contains_eq_mem, decide_eq_false_iff_not] at hc
+      simp only [List.mem_append, List.mem_cons, List.not_mem_nil, or_false] at h
+      rcases h with h | h
+      · exact Or.inl h
+      · exact Or.inr ⟨h, hne, hc.1.1, hc.1.2⟩
+    · exact Or.inl h
+
+theorem inner_undirected_sound (edges : List (Nat × Nat)) (v1 : Nat) (vs : List Nat) :
+    ∀ (acc : List (Nat × Nat)) (p : Nat × Nat), p ∈ vs.foldl (innerStep edges true v1) acc →
+      p ∈ acc ∨ (p.1 = v1 ∧ p.2 ∈ vs ∧ NonAdj edges p.1 p.2) := by
+  induction vs with
+  | nil => intro acc p h; exact Or.inl h
+  | cons v vs ih =>
+    intro acc p h
+    rw [List.foldl_cons] at h
+    rcases ih _ p h with h' | ⟨h1, h2, h3⟩
+    · rcases innerStep_undirected_sound edges v1 v acc p h' with h'' | ⟨rfl, hn⟩
+      · exact Or.inl h''
+      · exact Or.inr ⟨rfl, by simp, hn⟩
+    · exact Or.inr ⟨h1, by simp [h2], h3⟩
+
+theorem inner_undirected_complete (edges : List (Nat × Nat)) (v1 : Nat) (vs : List Nat) :
+    ∀ (acc : List (Nat × Nat)) (v2 : Nat), v2 ∈ vs → NonAdj edges v1 v2 →
+      (v1, v2) ∈ vs.foldl (innerStep edges true v1) acc ∨ (v2, v1) ∈ vs.foldl (innerStep edges true v1) acc := by
+  induction vs with
+  | nil => intro acc v2 h; cases h
+  | cons v vs ih =>
+    intro acc v2 hv hn
+    rw [List.foldl_cons]
+    by_cases hvs : v2 ∈ vs
+    · exact ih _ v2 hvs hn
+    · have : v2 = v := by simpa [hvs] using hv
+      subst this
+      rcases innerStep_undirected_complete edges v1 v2 acc hn with h | h
+      · exact Or.inl (inner_mono edges true v1 vs _ _ h)
+      · exact Or.inr (inner_mono edges true v1 vs _ _ h)
+
+/-- every pair the `-u` complement lists is a non-adjacent pair of vertices -/
+theorem complement_undirected_sound (edges : List (Nat × Nat)) (vs : List Nat) (a b : Nat)
+    (h : (a, b) ∈ complement edges vs true) : a ∈ vs ∧ b ∈ vs ∧ NonAdj edges a b := by
+  unfold complement at h
+  have key : ∀ (us : List Nat) (acc : List (Nat × Nat)),
+      (a, b) ∈ us.foldl (fun acc v1 => vs.foldl (innerStep edges true v1) acc) acc →
+      (a, b) ∈ acc ∨ (a ∈ us ∧ b ∈ vs ∧ NonAdj edges a b) := by
+    intro us
+    induction us with
+    | nil => intro acc h; exact Or.inl h
+    | cons u us ih =>
+      intro acc h
+      rw [List.foldl_cons] at h
+      rcases ih _ h with h' | ⟨h1, h2⟩
+      · rcases inner_undirected_sound edges u vs acc (a, b) h' with h'' | ⟨h1, h2, h3⟩
+        · exact Or.inl h''
+        · exact Or.inr ⟨by simp at h1; simp [h1], h2, h3⟩
+      · exact Or.inr ⟨by simp [h1], h2⟩
+  rcases key vs [] h with h' | h'
+  · cases h'
+  · exact h'
+
+/-- every non-adjacent pair of vertices is listed by the `-u` complement in one orientation -/
+theorem complement_undirected_complete (edges : List (Nat × Nat)) (vs : List Nat) (a b : Nat)
+    (ha : a ∈ vs) (hb : b ∈ vs) (hn : NonAdj edges a b) :
+    (a, b) ∈ complement edges vs true ∨ (b, a) ∈ complement edges vs true := by
+  unfold complement
+  have key : ∀ (us : List Nat) (acc : List (Nat × Nat)), a ∈ us →
+      (a, b) ∈ us.foldl (fun acc v1 => vs.foldl (innerStep edges true v1) acc) acc ∨
+      (b, a) ∈ us.foldl (fun acc v1 => vs.foldl (innerStep edges true v1) acc) acc := by
+    intro us
+    induction us with
+    | nil => intro acc h; cases h
+    | cons u us ih =>
+      intro acc h
+      rw [List.foldl_cons]
+      by_cases hus : a ∈ us
+      · exact ih _ hus
+      · have : a = u := by simpa [hus] using h
+        subst this
+        rcases inner_undirected_complete edges a vs acc b hb hn with h' | h'
+        · exact Or.inl (outer_mono edges true vs us _ _ h')
+        · exact Or.inr (outer_mono edges true vs us _ _ h')
+  exact key vs [] ha
+
+/-- read as a vertex set, with `-u`: the models of the `--all` formula are exactly the cliques
+(a pair is adjacent when an edge is given in either direction) -/
+theorem clique_all_undirected (edges : List (Nat × Nat)) (vs : List Nat) (vid cid : Nat → Nat) (σ : Asg) :
+    Sem (formula edges vs true true vid cid) FEnv.empty σ ↔
+      ∀ a ∈ vs, ∀ b ∈ vs, a ≠ b → σ (vid a) = true → σ (vid b) = true →
+        ((a, b) ∈ edges ∨ (b, a) ∈ edges) := by
+  rw [sem_all_iff]
+  constructor
+  · intro h a ha b hb hne sa sb
+    apply Classical.byContradiction; intro he
+    have hn : NonAdj edges a b := ⟨hne, fun e => he (Or.inl e), fun e => he (Or.inr e)⟩
+    rcases complement_undirected_complete edges vs a b ha hb hn with h' | h'
+    · exact h _ h' ⟨sa, sb⟩
+    · exact h _ h' ⟨sb, sa⟩
+  · intro h p hp ⟨s1, s2⟩
+    obtain ⟨ha, hb, hne, h1, h2⟩ := complement_undirected_sound edges vs p.1 p.2 hp
+    rcases h p.1 ha p.2 hb hne s1 s2 with e | e
+    · exact h1 e
+    · exact h2 e
+
+
+/-! ### maximum cliques (without `--all`) -/
+
+/-- adjacency as the property reads the edge list: with `-u` either direction connects,
+without it both directions must be present -/
+def Adj (edges : List (Nat × Nat)) (u : Bool) (a b : Nat) : Prop :=
+  if u then (a, b) ∈ edges ∨ (b, a) ∈ edges else (a, b) ∈ edges ∧ (b, a) ∈ edges
+
+/-- `S` (a membership test on vertices) is a clique of the graph on `vs` -/
+def IsClique (edges : List (Nat × Nat)) (u : Bool) (vs : List Nat) (S : Nat → Bool) : Prop :=
+  ∀ a ∈ vs, ∀ b ∈ vs, a ≠ b → S a = true → S b = true → Adj edges u a b
+
+/-- "no listed pair is selected together" is "the selection is a clique" -/
+theorem complement_clique (edges : List (Nat × Nat)) (vs : List Nat) (u : Bool) (S : Nat → Bool) :
+    (∀ p ∈ complement edges vs u, ¬ (S p.1 = true ∧ S p.2 = true)) ↔ IsClique edges u vs S := by
+  cases u with
+  | false =>
+    simp only [IsClique, Adj, Bool.false_eq_true, if_false]
+    constructor
+    · intro h a ha b hb hne sa sb
+      constructor
+      · apply Classical.byContradiction; intro he
+        exact h (a, b) ((mem_complement_directed edges vs a b).mpr ⟨ha, hb, hne, he⟩) ⟨sa, sb⟩
+      · apply Classical.byContradiction; intro he
+        exact h (b, a) ((mem_complement_directed edges vs b a).mpr ⟨hb, ha, fun e => hne e.symm, he⟩) ⟨sb, sa⟩
+    · intro h p hp ⟨s1, s2⟩
+      obtain ⟨ha, hb, hne, he⟩ := (mem_complement_directed edges vs p.1 p.2).mp hp
+      exact he (h p.1 ha p.2 hb hne s1 s2).1
+  | true =>
+    simp only [IsClique, Adj, if_true]
+    constructor
+    · intro h a ha b hb hne sa sb
+      apply Classical.byContradiction; intro he
+      have hn : NonAdj edges a b := ⟨hne, fun e => he (Or.inl e), fun e => he (Or.inr e)⟩
+      rcases complement_undirected_complete edges vs a b ha hb hn with h' | h'
+      · exact h _ h' ⟨sa, sb⟩
+      · exact h _ h' ⟨sb, sa⟩
+    · intro h p hp ⟨s1, s2⟩
+      obtain ⟨ha, hb, hne, h1, h2⟩ := complement_undirected_sound edges vs p.1 p.2 hp
+      rcases h p.1 ha p.2 hb hne s1 s2 with e | e
+      · exact h1 e
+      · exact h2 e
+
+/-- the conjuncts `-(a & b)` (or the single `true`) hold iff no listed pair is selected together -/
+theorem sem_nonEdge (comp : List (Nat × Nat)) (var : Nat → Nat) (σ : Asg) :
+    (∀ f ∈ nonEdgeConstraints comp var, Sem f FEnv.empty σ) ↔
+      ∀ p ∈ comp, ¬ (σ (var p.1) = true ∧ σ (var p.2) = true) := by
+  by_cases hc : comp.isEmpty = true
+  · have : comp = [] := by simpa using hc
+    simp [nonEdgeConstraints, this, Sem]
+  · simp only [nonEdgeConstraints, hc, Bool.false_eq_true, if_false, List.mem_map, forall_exists_index, and_imp]
+    constructor
+    · intro h p hp
+      have := h _ p hp rfl
+      simpa [Sem, BinOp.sem, FEnv.empty] using this
+    · rintro h f p hp rfl
+      have := h p hp
+      simpa [Sem, BinOp.sem, FEnv.empty] using this
+
+theorem sem_conj_last (fs : List Formula) (last : Formula) (ρ : FEnv) (σ : Asg) :
+    Sem (conj fs last) ρ σ ↔ (∀ f ∈ fs, Sem f ρ σ) ∧ Sem last ρ σ := by
+  unfold conj
+  induction fs with
+  | nil => simp
+  | cons f fs ih => simp [Sem, BinOp.sem, ih, and_assoc]
+
+/-- the antecedent of the implication is the conjunction of all its conjuncts -/
+theorem sem_body (copies : List Formula) (ρ : FEnv) (σ : Asg) :
+    Sem (antecedent copies) ρ σ ↔ ∀ f ∈ copies, Sem f ρ σ := by
+  unfold antecedent
+  cases h : copies.reverse with
+  | nil =>
+    have : copies = [] := by simpa using h
+    simp [this, Sem]
+  | cons last restRev =>
+    have : copies = restRev.reverse ++ [last] := by
+      have := congrArg List.reverse h
+      simpa using this
+    simp only [sem_conj_last, this, List.mem_append, List.mem_cons, List.not_mem_nil, or_false]
+    constructor
+    · rintro ⟨h1, h2⟩ f (hf | rfl)
+      · exact h1 f hf
+      · exact h2
+    · intro h'
+      exact ⟨fun f hf => h' f (Or.inl hf), h' last (Or.inr rfl)⟩
+
+theorem trueCount_map (vs : List Nat) (f : Nat → Nat) (σ : Asg) :
+    trueCount (vs.map f) σ = (vs.filter (fun v => σ (f v))).length := by
+  simp [trueCount, List.filter_map, Function.comp_def]
+
+theorem filter_length_congr {vs : List Nat} {p q : Nat → Bool} (h : ∀ v ∈ vs, p v = q v) :
+    (vs.filter p).length = (vs.filter q).length := by
+  rw [List.filter_congr h]
+
+/-- the models of the emitted formula (without `--all`), read as vertex sets, are exactly the
+cliques of maximum cardinality.  Hypotheses: the enumeration of the vertices has no
+duplicates, distinct vertices have distinct variables and distinct copies, and no copy is a
+vertex variable (the fresh prefix chosen by the generator). -/
+theorem clique_max (edges : List (Nat × Nat)) (vs : List Nat) (u : Bool) (vid cid : Nat → Nat) (σ : Asg)
+    (hcid : ∀ a ∈ vs, ∀ b ∈ vs, cid a = cid b → a = b)
+    (hdisj : ∀ a ∈ vs, ∀ b ∈ vs, vid a ≠ cid b) :
+    Sem (formula edges vs u false vid cid) FEnv.empty σ ↔
+      IsClique edges u vs (fun v => σ (vid v)) ∧
+      ∀ T : Nat → Bool, IsClique edges u vs T →
+        (vs.filter T).length ≤ (vs.filter (fun v => σ (vid v))).length := by
+  simp only [formula, Bool.false_eq_true, if_false]
+  rw [sem_conj_last, sem_nonEdge, complement_clique edges vs u (fun v => σ (vid v))]
+  apply and_congr_right
+  intro _
+  simp only [Sem, FEnv.empty_remove, BinOp.sem]
+  have cnt : ∀ σ' : Asg, (∃ k₁ k₂, SemCount (vs.map (fun v => Formula.var (vid v))) FEnv.empty σ' k₁ ∧
+      SemCount (vs.map (fun v => Formula.var (cid v))) FEnv.empty σ' k₂ ∧ CntOp.sem .atLeast k₁ k₂) ↔
+      (vs.filter (fun v => σ' (cid v))).length ≤ (vs.filter (fun v => σ' (vid v))).length := by
+    intro σ'
+    have e1 : vs.map (fun v => Formula.var (vid v)) = (vs.map vid).map Formula.var := by simp
+    have e2 : vs.map (fun v => Formula.var (cid v)) = (vs.map cid).map Formula.var := by simp
+    rw [e1, e2]
+    constructor
+    · rintro ⟨k₁, k₂, h1, h2, h3⟩
+      rw [semCount_vars] at h1 h2
+      rw [trueCount_map] at h1 h2
+      simp only [CntOp.sem] at h3
+      omega
+    · intro h
+      refine ⟨_, _, (semCount_vars _ _ _).mpr rfl, (semCount_vars _ _ _).mpr rfl, ?_⟩
+      simp only [CntOp.sem, trueCount_map]
+      exact h
+  constructor
+  · intro h T hT
+    -- the copies take the values of T, everything else keeps its value
+    let σ' : Asg := fun x => if x ∈ vs.map cid then
+        (match vs.find? (fun v => cid v == x) with
+          | some v => T v
+          | none => false)
+      else σ x
+    have hag : AgreeOff (vs.map cid) σ σ' := by
+      intro w hw; simp only [σ', hw, if_false]
+    have hcopy : ∀ v ∈ vs, σ' (cid v) = T v := by
+      intro v hv
+      have hm : cid v ∈ vs.map cid := List.mem_map.mpr ⟨v, hv, rfl⟩
+      simp only [σ', hm, if_true]
+      cases hf : vs.find? (fun w => cid w == cid v) with
+      | none =>
+        have := List.find?_eq_none.mp hf v hv
+        simp at this
+      | some w =>
+        have hw := List.find?_some hf
+        have hwm := List.mem_of_find?_eq_some hf
+        simp only [beq_iff_eq] at hw
+        rw [hcid w hwm v hv hw]
+    have hown : ∀ v ∈ vs, σ' (vid v) = σ (vid v) := by
+      intro v hv
+      have hm : vid v ∉ vs.map cid := by
+        intro hm
+        obtain ⟨w, hw, e⟩ := List.mem_map.mp hm
+        exact hdisj v hv w hw e.symm
+      simp only [σ', hm, if_false]
+    have hb : Sem (antecedent (nonEdgeConstraints (complement edges vs u) cid)) FEnv.empty σ' := by
+      rw [sem_body, sem_nonEdge, complement_clique edges vs u (fun v => σ' (cid v))]
+      intro a ha b hb hne sa sb
+      have sa' : σ' (cid a) = true := sa
+      have sb' : σ' (cid b) = true := sb
+      rw [hcopy a ha] at sa'; rw [hcopy b hb] at sb'
+      exact hT a ha b hb hne sa' sb'
+    have := (cnt σ').mp (h σ' hag hb)
+    rw [filter_length_congr hcopy, filter_length_congr hown] at this
+    exact this
+  · intro h σ' hag hb
+    rw [cnt]
+    rw [sem_body, sem_nonEdge, complement_clique edges vs u (fun v => σ' (cid v))] at hb
+    have hown : ∀ v ∈ vs, σ' (vid v) = σ (vid v) := by
+      intro v hv
+      apply hag
+      intro hm
+      obtain ⟨w, hw, e⟩ := List.mem_map.mp hm
+      exact hdisj v hv w hw e.symm
+    rw [filter_length_congr hown]
+    exact h (fun v => σ' (cid v)) hb
+
+
+/-! ### the evaluator on the emitted formula -/
+
+theorem good_conj_last (fs : List Formula) (last : Formula)
+    (h : ∀ f ∈ fs, GoodF f ∧ C01.NoFix f) (hl : GoodF last ∧ C01.NoFix last) :
+    GoodF (conj fs last) ∧ C01.NoFix (conj fs last) := by
+  unfold conj
+  induction fs with
+  | nil => exact hl
+  | cons f fs ih =>
+    have := ih (fun g hg => h g (by simp [hg]))
+    simp only [List.foldr_cons, GoodF, C01.NoFix]
+    exact ⟨⟨(h f (by simp)).1, this.1⟩, (h f (by simp)).2, this.2⟩
+
+theorem good_nonEdge (comp : List (Nat × Nat)) (var : Nat → Nat) :
+    ∀ f ∈ nonEdgeConstraints comp var, GoodF f ∧ C01.NoFix f := by
+  intro f hf
+  unfold nonEdgeConstraints at hf
+  split at hf
+  · simp at hf; subst hf; simp [GoodF, C01.NoFix]
+  · simp only [List.mem_map] at hf
+    obtain ⟨p, _, rfl⟩ := hf
+    simp [GoodF, C01.NoFix]
+
+theorem good_antecedent (copies : List Formula) (h : ∀ f ∈ copies, GoodF f ∧ C01.NoFix f) :
+    GoodF (antecedent copies) ∧ C01.NoFix (antecedent copies) := by
+  unfold antecedent
+  cases hr : copies.reverse with
+  | nil => simp [GoodF, C01.NoFix]
+  | cons last restRev =>
+    have : copies = restRev.reverse ++ [last] := by
+      have := congrArg List.reverse hr
+      simpa using this
+    simp only
+    apply good_conj_last
+    · intro f hf; exact h f (by rw [this]; simp [hf])
+    · exact h last (by rw [this]; simp)
+
+theorem formula_good (edges : List (Nat × Nat)) (vs : List Nat) (u all : Bool) (vid cid : Nat → Nat) :
+    GoodF (formula edges vs u all vid cid) ∧ C01.NoFix (formula edges vs u all vid cid) := by
+  unfold formula
+  cases all with
+  | true =>
+    simp only [if_true]
+    exact good_conj_last _ _ (good_nonEdge _ _) (by simp [GoodF, C01.NoFix])
+  | false =>
+    simp only [Bool.false_eq_true, if_false]
+    apply good_conj_last _ _ (good_nonEdge _ _)
+    have ha := good_antecedent _ (good_nonEdge (complement edges vs u) cid)
+    have e1 : vs.map (fun v => Formula.var (vid v)) = (vs.map vid).map Formula.var := by simp
+    have e2 : vs.map (fun v => Formula.var (cid v)) = (vs.map cid).map Formula.var := by simp
+    simp only [GoodF, C01.NoFix, e1, e2]
+    exact ⟨⟨ha.1, goodFL_map_var _, goodFL_map_var _⟩, ha.2, noFixL_map_var _, noFixL_map_var _⟩
+
+/-- solving the emitted formula with rsbdd: the evaluator returns, and the diagram it returns is
+true exactly on the maximum cliques -/
+theorem clique_solved (edges : List (Nat × Nat)) (vs : List Nat) (u : Bool) (vid cid : Nat → Nat)
+    (hcid : ∀ a ∈ vs, ∀ b ∈ vs, cid a = cid b → a = b)
+    (hdisj : ∀ a ∈ vs, ∀ b ∈ vs, vid a ≠ cid b) (iters : Nat) :
+    let f := formula edges vs u false vid cid
+    ∃ b, Formula.evalF iters (Formula.depth f) f = some b ∧ ROBDD b ∧
+      ∀ σ, (eval b σ = true ↔
+        IsClique edges u vs (fun v => σ (vid v)) ∧
+        ∀ T : Nat → Bool, IsClique edges u vs T →
+          (vs.filter T).length ≤ (vs.filter (fun v => σ (vid v))).length) := by
+  intro f
+  obtain ⟨b, hb, hr, hs⟩ := solved f (formula_good ..).1 (formula_good ..).2 iters
+  exact ⟨b, hb, hr, fun σ => (hs σ).trans (clique_max edges vs u vid cid σ hcid hdisj)⟩
+
+-- non-vacuity: on the path b–a–c (vertices 0,1,2 = a,b,c; copies 10,11,12) {a,b} is a maximum clique, {a} is not
+example : IsClique [(0, 1), (0, 2)] true [0, 1, 2] (fun v => v == 0 || v == 1) := by
+  intro a ha b hb; simp [Adj] at *; omega
+example : ¬ IsClique [(0, 1), (0, 2)] true [0, 1, 2] (fun _ => true) := by
+  intro h; have := h 1 (by simp) 2 (by simp) (by decide) rfl rfl; simp [Adj] at this
 
 end Rsbdd.C16
